@@ -470,10 +470,10 @@ pub fn explore<C: Runnable>(case: &C, k: u32, region_ids: &[u32], cfg: &Cfg, out
             continue;
         }
 
-        // ---- a cheap necessary condition for combinations. When every sensitive gate is affine
+        // ---- a cheap necessary condition for combinations. For a sensitive gate that is affine
         // in the region's cells (decomposition and spreaded-sum gates are), the residual of a
-        // combination of moves on disjoint cells is the sum of the residuals of its moves; a gate
-        // with a non-zero residual must then contain a cell that can absorb a repair (a region
+        // combination of moves on disjoint cells is the sum of the residuals of its moves; such a
+        // gate with a non-zero residual must contain a cell that can absorb a repair (a region
         // cell that is neither pinned by a copy nor constrained by an active lookup row).
         // Combinations failing this are not evaluated exactly; they cannot be locally consistent.
         let region_degree = |p: &Expression<F>, row: usize| -> u32 {
@@ -490,7 +490,8 @@ pub fn explore<C: Runnable>(case: &C, k: u32, region_ids: &[u32], cfg: &Cfg, out
                 &|a, _| a,
             )
         };
-        let affine = sens_gates.iter().all(|(gi, row)| region_degree(gate_polys[*gi].1, *row) <= 1);
+        let affine_g: Vec<bool> = sens_gates.iter().map(|(gi, row)| region_degree(gate_polys[*gi].1, *row) <= 1).collect();
+        let affine = affine_g.iter().any(|a| *a);
         let g_n = sens_gates.len();
         let mut repairable = vec![false; g_n];
         for (g, (gi, row)) in sens_gates.iter().enumerate() {
@@ -552,7 +553,7 @@ pub fn explore<C: Runnable>(case: &C, k: u32, region_ids: &[u32], cfg: &Cfg, out
                     let total = touched.len();
                     touched.sort();
                     touched.dedup();
-                    if touched.len() == total && sum.iter().zip(&repairable).any(|(v, rep)| !v.is_zero_vartime() && !*rep) {
+                    if touched.len() == total && (0..g_n).any(|g| affine_g[g] && !repairable[g] && !sum[g].is_zero_vartime()) {
                         prefiltered += 1;
                         continue;
                     }
@@ -706,4 +707,19 @@ pub fn explore<C: Runnable>(case: &C, k: u32, region_ids: &[u32], cfg: &Cfg, out
     out.counter("laws_real_runs", st.real_runs);
     out.counter("laws_regions_capped", st.capped_regions);
     st
+}
+
+/// All regions of the case's circuit (at most `max_regions`, the last ones first — they hold the
+/// operation proper, after the input assignments).
+pub fn explore_all<C: Runnable>(case: &C, k: u32, cfg: &Cfg, max_regions: usize, out: &mut CaseOut) -> Stats {
+    let Some(regs) = regions_of(case, k) else {
+        out.eval("laws:no-honest-circuit", false);
+        return Stats::default();
+    };
+    let mut ids: Vec<u32> = regs.iter().rev().take(max_regions).map(|r| r.0).collect();
+    ids.sort();
+    if regs.len() > max_regions {
+        out.count("laws:regions-not-explored", (regs.len() - max_regions) as u64);
+    }
+    explore(case, k, &ids, cfg, out)
 }
